@@ -194,7 +194,7 @@ InCrateDomain(ref) ==
 
 \* resource bounds of C01 (DESIGN.md section 5, C01): linear in the input length
 StepBound(n) == 64 * n + 1024
-HeapBoundOf(n) == 2048 * n + 65536
+HeapBoundOf(n) == 1024 * n + 65536
 
 TraceParse ==
   /\ Ev.ev = "Parse"
